@@ -60,9 +60,12 @@ func wireTokSpec(r *Rand, nCast int, label string, focus string) TokSpec {
 		}
 	}
 	// a Go string that is not valid UTF-8 (DAG-CBOR carries it, DAG-JSON cannot)
-	if r.Chance(0.04) {
-		v := Val{K: "rstr", X: []byte{'a', 0xff, 0xfe, 'b'}}
-		if ts.Kind == "inv" {
+	if r.Chance(0.08) {
+		v := Val{K: "rstr", X: Pick(r, [][]byte{{'a', 0xff, 0xfe, 'b'}, []byte("caf\xe9.txt"), []byte("dangling \xe2\x82"), {0xff}, []byte("ok\xc0\xafok")})}
+		if ts.Kind == "inv" && r.Chance(0.4) {
+			// nested in a list and in a map
+			ts.Inv.Args = append(ts.Inv.Args, KV{"rawn", vList(vMap(KV{"s", v}), v)})
+		} else if ts.Kind == "inv" {
 			ts.Inv.Args = append(ts.Inv.Args, KV{"raw", v})
 		} else {
 			ts.Dlg.Meta = append(ts.Dlg.Meta, MetaSpec{Key: "raw", V: &v})
@@ -224,7 +227,7 @@ func genWire(r *Rand, g GenCfg) Plan {
 		for i := 0; i < 24; i++ {
 			add(XStep{Op: "mutate", Tok: r.Intn(2), Codec: Pick(r, []string{"cbor", "cbor", "json"}), Kind: Pick(r, []string{"subst", "insert", "append"}), At: r.Intn(4096), Val: r.Intn(256)})
 		}
-		for _, k := range []string{"empty", "trunc", "trunc", "other_key", "iss_swapped", "foreign_header", "foreign_header", "unknown_header", "no_header", "two_payloads", "splice", "hostile_header", "hostile_header"} {
+		for _, k := range []string{"empty", "trunc", "trunc", "other_key", "iss_swapped", "foreign_header", "foreign_header", "unknown_header", "no_header", "two_payloads", "splice", "hostile_header", "hostile_header", "zero_hash", "zero_hash"} {
 			add(XStep{Op: "sig", Tok: r.Intn(2), Kind: k, At: r.Intn(600), Val: r.Intn(256)})
 		}
 		for t := 0; t < 2; t++ {
@@ -287,6 +290,9 @@ func genWire(r *Rand, g GenCfg) Plan {
 		}
 		for i := 0; i < 2*nn; i++ {
 			add(XStep{Op: "sig", Tok: r.Intn(2), Kind: "hostile_header", At: r.Intn(64), Val: r.Intn(12)})
+		}
+		for i := 0; i < 8*nn; i++ {
+			add(XStep{Op: "hostile", Tok: r.Intn(2), Kind: "odd_operator", At: r.Intn(90), Val: r.Intn(128)})
 		}
 		nt := 60
 		if all {
